@@ -9,6 +9,7 @@ import Driver.Ops.Enc
 import Driver.Ops.OneShot
 import Driver.Ops.Meta
 import Driver.Ops.EncChar16
+import Driver.Ops.Spec
 /-!
 Model driver: reads operation lines `op args… => impl-result` on stdin,
 recomputes the right-hand side with the Lean model and prints
@@ -22,7 +23,7 @@ Each `Driver/Ops/*.lean` module contributes a handler
 namespace Driver
 
 def handlers : List (String → List String → Option (Option String)) :=
-  [Ops.label, Ops.dec, Ops.valid, Ops.mem, Ops.cls, Ops.encchar, Ops.enc, Ops.oneshot, Ops.metaOp, Ops.encchar16]
+  [Ops.label, Ops.dec, Ops.valid, Ops.mem, Ops.cls, Ops.encchar, Ops.enc, Ops.oneshot, Ops.metaOp, Ops.encchar16, Ops.specdec]
 
 /-- model result for one operation, or `none` if the line is not understood -/
 def runOp (op : String) (args : List String) : Option String :=
